@@ -77,6 +77,28 @@ def rule_r1(F, rep):
                 recv = t["xs"][0] if f["d"] != VISIT_M else t["xs"][1]
                 org = P.origins_op(recv)
                 sites.append((bb, t, org))
+        # the same inside a closure handed to an iterator adapter (`self.iter().for_each(|x| x.trace(ctx))`): the site counts for
+        # the parent, with the origin of what the adapter iterates over
+        for clo in F.closures_of(fn):
+            Pc = None
+            for cbb, ct in clo.body.calls():
+                f = ct["f"]
+                if f["k"] != "def":
+                    continue
+                if f["d"] in (TRACE_M, VISIT_M) or (f.get("r") or "").endswith(" as %s>::trace" % TRACE):
+                    recv = ct["xs"][0] if f["d"] != VISIT_M else ct["xs"][1]
+                    Pc = Pc or prov.Prov(F, clo.body)
+                    corg = Pc.origins_op(recv)
+                    if not (corg and all(o[0] == "arg" and o[1] == 2 for o in corg)):
+                        sites.append((cbb, ct, {("closure-capture",)}))
+                        continue
+                    for pbb, pt in body.calls():
+                        if any("t" in x and body.ty(x["t"]).get("k") == "closure" and body.ty(x["t"]).get("d") == clo.q for x in pt["xs"]):
+                            pn = callee_name(pt) or ""
+                            if pn.endswith("::for_each") or pn.endswith("::map") or pn.endswith("::for_each_mut"):
+                                sites.append((pbb, pt, P.origins_op(pt["xs"][0])))
+                            else:
+                                sites.append((pbb, pt, {("adapter", pn)}))
         # loop structure: blocks inside a natural loop that polls an iterator
         succ = body.succ_map()
         pred = body.pred_map()
@@ -319,7 +341,7 @@ def rule_r4(F, rep):
             if (callee_name(t) or "") == "<core::cell::Cell>::set":
                 for o in P2.origins_op(t["xs"][0]):
                     if o[0] == "field" and o[1] == GCBOX and o[2] in writers:
-                        writers[o[2]].add(fn.q)
+                        writers[o[2]] |= cg.known_owners(F, fn.q)
     exp_v = {"<%s>::gc" % GCCTX, "<rsjsonnet_lang::gc::GcCountCtx as rsjsonnet_lang::gc::GcTraceCtx>::visit_obj"}
     exp_m = {"<%s>::gc" % GCCTX, "<rsjsonnet_lang::gc::GcMarkCtx as rsjsonnet_lang::gc::GcTraceCtx>::visit_obj"}
     okv = writers["visits"] <= exp_v and len(writers["visits"]) == 2
@@ -357,11 +379,11 @@ def rule_r5(F, rep):
 
 
 def run(F, rep, tier):
-    rule_r1(F, rep)
-    rule_r2(F, rep)
-    rule_r3(F, rep)
-    rule_r4(F, rep)
-    rule_r5(F, rep)
+    rep.attempt(rule_r1, F, rep)
+    rep.attempt(rule_r2, F, rep)
+    rep.attempt(rule_r3, F, rep)
+    rep.attempt(rule_r4, F, rep)
+    rep.attempt(rule_r5, F, rep)
     rep.assume("the count/mark/sweep algorithm of GcContext::gc itself (root identification by weak-count vs visits) "
                "and schedule-independence of outcomes are behavioural and stay with the repository's unit tests")
     return EXPLANATION
